@@ -1,18 +1,26 @@
 /-
   C15 — show/look and print/scan round-trip values.
 
-  Property theorems only (helper lemmas: CelloProofs/Lemmas/Text.lean, TextSeq.lean).
-  Model: Cello/Text.lean.  `srcCfg` collects what the translator reads from the source on every run (CelloGen/Text.lean):
-  the two escape tables of String_Show / String_Look, the delimiter and escape bytes, whether the reader's escape arm ends in
-  `continue` (fix d6bdde9), and what scan_from_with adds to `pos` for `%%`.
+  Property theorems only (helper lemmas: CelloProofs/Lemmas/Text.lean, TextInt.lean, TextFloat.lean, TextRound.lean, TextSeq.lean,
+  TextFmt.lean).  Model: Cello/Text.lean.  `srcCfg` collects what the translator reads from the source on every run
+  (CelloGen/Text.lean): the two escape tables of String_Show / String_Look, the delimiter and escape bytes, whether the reader's
+  escape arm ends in `continue` (fix d6bdde9), what scan_from_with adds to `pos` for `%%` (fix 619a9b3), the arms of the integer
+  branch of scan_from_with — which object scanf stores into for which length modifier, and how it is widened (fix 9114264) — and
+  the test that selects the `double` arm of the floating branch.
 
-  Float: there is deliberately no theorem about the *value* read back ("%f"/"%lf" are libc conversions whose exact model,
-  `printF` / `scanDouble`, is only validated against the implementation); see the evidence's level_note.
+  Int: every specification `%[hh|h|l|ll|j|z|t|q][d|i|o|u|x|X]` (54) is covered; what is read back is C's conversion of the value to
+  the type the modifier names, i.e. the value itself on the range of that type (`C15_intspec_roundtrip`, `C15_intspec_in_width`).
+  Float: the value clause is a theorem (`C15_float_value`, `C15_float_within`): both libc conversions are exact executable
+  functions of the model and the statement is arithmetic about them.  A floating specification without `l` makes
+  scan_from_with store through a `float`: known finding KF-C15-float-spec-narrow (`C15_float_narrow_refuted`); for values
+  representable in a `float` the round trip is proved (`C15_float_narrow_partial`).
 -/
 import Cello.Text
 import CelloGen.Text
 import CelloProofs.Lemmas.Text
+import CelloProofs.Lemmas.TextInt
 import CelloProofs.Lemmas.TextFloat
+import CelloProofs.Lemmas.TextRound
 import CelloProofs.Lemmas.TextSeq
 import CelloProofs.Lemmas.TextFmt
 
@@ -43,6 +51,17 @@ theorem C15_tables : tablesOK srcCfg = true ∧ srcCfg.look.continues = true := 
 /-- the `%%` branch of `scan_from_with` advances `pos` by what `"%%%n"` consumed (commit 619a9b3), not by a constant -/
 theorem C15_pct_uses_n : srcCfg.pctUsesN = true := rfl
 
+/-- **The integer branch of `scan_from_with`, decided on the arms extracted from the source** (commit 9114264): for each of the 54
+    specifications `%[hh|h|l|ll|j|z|t|q][d|i|o|u|x|X]` the first arm whose test on `fmt_buf` holds has scanf store into an object of
+    exactly the width libc writes for that modifier (`l j z t q` → the `long` itself, `hh` → `signed char`, `h` → `short`, none →
+    `int`), a narrower object is a temporary that is then widened, and `sgn` is true exactly for `d` and `i`.
+    Before the fix every specification was read into the `long`: this theorem then fails (`C15_int_width_old_refuted`). -/
+theorem C15_int_arms : armsOK srcCfg = true := by decide
+
+/-- the floating branch reads a `double` exactly when the specification has the `l` modifier, a `float` otherwise -/
+theorem C15_float_arm : ∀ (l : Bool) (cv : FConv), fspecNarrow srcCfg l cv = !l := by
+  intro l cv; cases l <;> cases cv <;> decide
+
 /-- **C15 for String (T1).**  For every byte string `s` without NUL, every text `rest` that follows and every position counter:
     `String_Look` applied to what `String_Show` wrote for `s`, followed by `rest`, yields exactly `s`, leaves exactly `rest`
     unread, and advances the position by exactly the number of characters written. -/
@@ -52,47 +71,83 @@ theorem C15_string_roundtrip (s : List Nat) (hs : ∀ b ∈ s, b ≠ 0) (rest : 
   lookString_show srcCfg (tables_of_ok _ C15_tables.1) C15_tables.2 s hs rest pos
 
 /-- **C15 for Int (T1).**  For every `int64_t` `n` and every following text that does not start with a digit (nor with `x`/`X`
-    after a lone `0`, which `%li` would take for a hexadecimal prefix): scanf's `%li` applied to what `%li` printed, followed by
-    that text, yields `n` and leaves exactly that text unread. -/
+    after a lone `0`, which `%li` would take for a hexadecimal prefix): the integer branch of `scan_from_with` for `%li` — what
+    `Int_Look` calls — applied to what `%li` printed (`Int_Show`), followed by that text, yields `n` and leaves exactly that text unread. -/
 theorem C15_int_roundtrip (n : Int) (hn : -(2 ^ 63 : Int) ≤ n ∧ n < 2 ^ 63) (rest : List Nat)
     (hd : ∀ b r, rest = b :: r → ¬(48 ≤ b ∧ b ≤ 57)) (hx : n = 0 → ∀ b r, rest = b :: r → b ≠ 120 ∧ b ≠ 88) :
-    scanLong true (printInt n ++ rest) = .ok (n, rest) := by
-  apply scanLong_printInt true n (by simp only [inInt64, Bool.and_eq_true, decide_eq_true_eq]; exact hn) rest
-  cases rest with
-  | nil => simp [intSafe, headIs]
-  | cons b r =>
-    have h1 := hd b r rfl
-    simp only [intSafe, headIs, isDigit, Bool.and_eq_true, Bool.not_eq_true', Bool.and_eq_false_iff, decide_eq_false_iff_not,
-      Nat.not_le, beq_eq_false_iff_ne, Bool.or_eq_false_iff, Bool.true_and]
-    refine ⟨by omega, ?_⟩
-    by_cases h0 : n = 0
-    · have := hx h0 b r rfl
-      exact Or.inr ⟨this.1, this.2⟩
-    · exact Or.inl (by simpa using h0)
+    scanIntSpec srcCfg .l .i (printInt n ++ rest) = .ok (n, rest) := by
+  have hn' : inInt64 n = true := by simp only [inInt64, Bool.and_eq_true, decide_eq_true_eq]; exact hn
+  have hp : printInt n = printIntSpec .l .i n := by
+    have h := convInt_li n hn'
+    simp only [convInt, IConv.signed, if_true] at h
+    simp [printIntSpec, h]
+  have := scanIntSpec_print srcCfg (arms_of_ok _ C15_int_arms) .l .i n hn' rest (by
+    cases rest with
+    | nil => simp [ispecSafe, headIs]
+    | cons b r =>
+      have h1 := hd b r rfl
+      simp only [ispecSafe, headIs, isDigit, isXx, zext, IMod.width, Bool.and_eq_true, Bool.not_eq_true', Bool.and_eq_false_iff,
+        decide_eq_false_iff_not, Nat.not_le, beq_eq_false_iff_ne, Bool.or_eq_false_iff]
+      refine ⟨by omega, ?_⟩
+      by_cases h0 : n = 0
+      · have := hx h0 b r rfl
+        exact Or.inr ⟨this.1, this.2⟩
+      · exact Or.inl (by omega))
+  rw [hp, this, convInt_li n hn']
 
 /-- the same for the numeric specification `%ld` (decimal only: a following `x` is harmless) -/
 theorem C15_int_roundtrip_ld (n : Int) (hn : -(2 ^ 63 : Int) ≤ n ∧ n < 2 ^ 63) (rest : List Nat)
     (hd : ∀ b r, rest = b :: r → ¬(48 ≤ b ∧ b ≤ 57)) :
-    scanLong false (printInt n ++ rest) = .ok (n, rest) := by
-  apply scanLong_printInt false n (by simp only [inInt64, Bool.and_eq_true, decide_eq_true_eq]; exact hn) rest
-  cases rest with
-  | nil => simp [intSafe, headIs]
-  | cons b r =>
-    have h1 := hd b r rfl
-    simp only [intSafe, headIs, isDigit, Bool.and_eq_true, Bool.not_eq_true', Bool.and_eq_false_iff, decide_eq_false_iff_not,
-      Nat.not_le, Bool.false_and, Bool.not_false, and_true]
-    omega
+    scanIntSpec srcCfg .l .d (printIntSpec .l .d n ++ rest) = .ok (n, rest) := by
+  have hn' : inInt64 n = true := by simp only [inInt64, Bool.and_eq_true, decide_eq_true_eq]; exact hn
+  have := scanIntSpec_print srcCfg (arms_of_ok _ C15_int_arms) .l .d n hn' rest (by
+    cases rest with
+    | nil => simp [ispecSafe, headIs]
+    | cons b r =>
+      have h1 := hd b r rfl
+      simp only [ispecSafe, headIs, isDigit, Bool.not_eq_true', Bool.and_eq_false_iff, decide_eq_false_iff_not, Nat.not_le]
+      omega)
+  rw [this, convInt_inWidth .l .d n (by simpa [intInWidth, IMod.width] using hn')]
+
+/-- **C15 for every integer specification (T1).**  For each length modifier `m ∈ {none, hh, h, l, ll, j, z, t, q}`, each conversion
+    `cv ∈ {d, i, o, u, x, X}`, every `int64_t` `n` and every following text that does not continue the number (`ispecSafe`: no digit —
+    for `x`/`X` no hexadecimal digit —, and no `x`/`X` after a lone `0` under `i x X`): the integer branch of `scan_from_with` for
+    `%<m><cv>`, applied to what printf wrote for `n` under the same specification followed by that text, stores
+    `convInt m cv n` — **C's conversion of `n` to the type the modifier names**: sign extension of the low 8 / 16 / 32 bits for `d`, `i`;
+    the low 8 / 16 / 32 bits as an unsigned number for `o u x X`; `n` itself for the 64-bit modifiers (also under `o u x X`) — and
+    leaves exactly that text unread. -/
+theorem C15_intspec_roundtrip (m : IMod) (cv : IConv) (n : Int) (hn : inInt64 n = true) (rest : List Nat)
+    (hs : ispecSafe m cv n rest = true) :
+    scanIntSpec srcCfg m cv (printIntSpec m cv n ++ rest) = .ok (convInt m cv n, rest) :=
+  scanIntSpec_print srcCfg (arms_of_ok _ C15_int_arms) m cv n hn rest hs
+
+/-- … and on the range of the type the modifier names the conversion is the identity: the value written is the value read.
+    `intInWidth`: every `int64_t` for `l ll j z t q`; [-2^(w-1), 2^(w-1)) for `d`, `i` and [0, 2^w) for `o u x X` with w = 8 (`hh`),
+    16 (`h`), 32 (none). -/
+theorem C15_intspec_in_width (m : IMod) (cv : IConv) (n : Int) (h : intInWidth m cv n = true) : convInt m cv n = n :=
+  convInt_inWidth m cv n h
+
+/-- the ranges, spelled out for the narrow modifiers -/
+theorem C15_intspec_ranges (n : Int) :
+    (intInWidth .hh .d n = true ↔ -128 ≤ n ∧ n < 128) ∧ (intInWidth .hh .x n = true ↔ 0 ≤ n ∧ n < 256) ∧
+    (intInWidth .h .i n = true ↔ -32768 ≤ n ∧ n < 32768) ∧ (intInWidth .h .u n = true ↔ 0 ≤ n ∧ n < 65536) ∧
+    (intInWidth .none .d n = true ↔ -2147483648 ≤ n ∧ n < 2147483648) ∧ (intInWidth .none .o n = true ↔ 0 ≤ n ∧ n < 4294967296) ∧
+    (intInWidth .l .X n = true ↔ inInt64 n = true) ∧ (intInWidth .q .u n = true ↔ inInt64 n = true) := by
+  simp only [intInWidth, IMod.width, IConv.signed, Bool.and_eq_true, decide_eq_true_eq]
+  norm_num
 
 /-- **C15 for sequences (T1), String and File alike, every start position.**  Let `its` be any sequence of Strings, Ints
-    (shown with `%$`, `%li` or `%ld`), Floats (`%$`, `%lf`) and separators inside the contract (`contractOK`: NUL-free strings,
-    64-bit integers, finite doubles, separators — directive-free text or a literal `%%` —; a number is not followed by text that continues it; a separator
-    read from a File that ends in white space is not followed by white space), written by `print_to_with` at the end of a sink
-    holding any bytes `pre` (start position `pre.length`), and let any text `z` follow.  Then
+    (shown with `%$` or with any of the 54 integer specifications), Floats (`%$`, or any of `%[l][f|F|e|E|g|G]`) and separators inside
+    the contract (`contractOK`: NUL-free strings, 64-bit integers, finite doubles, separators — directive-free text or a literal
+    `%%` —; a number is not followed by text that continues it; a separator read from a File that ends in white space is not followed
+    by white space), written by `print_to_with` at the end of a sink holding any bytes `pre` (start position `pre.length`), and
+    let any text `z` follow.  Then
     * the sink holds `pre` followed by exactly the concatenation of the items' texts and the writer returns the start
       position plus the number of characters written;
-    * `scan_from_with` started at the same position stores, in order, exactly the values written — for a Float the double
-      nearest to the six-decimal text written (`reparse`; how close that is to the original is libc's `%f`/`%lf`, see
-      `C15_float_value_statement`);
+    * `scan_from_with` started at the same position stores, in order, `Item.readBack`: the String written; for an Int C's
+      conversion of the value to the type its specification names (the value itself when it fits: `C15_sequence_values_exact`); for
+      a Float the double — under a specification without `l`, the widened `float` — nearest to the text written
+      (`reparseSpec`; how close that is: `C15_float_value`, `C15_float_items`);
     * it returns the same position the writer returned, and a File's stream has moved by exactly the characters written. -/
 theorem C15_sequence_roundtrip (k : Kind) (pre : List Nat) (its : List Item) (z : List Nat)
     (hc : contractOK srcCfg k its z = true) :
@@ -100,19 +155,21 @@ theorem C15_sequence_roundtrip (k : Kind) (pre : List Nat) (its : List Item) (z 
     let inp : Input := { kind := k, text := pre ++ text ++ z, cur := pre.length }
     printItems srcCfg { kind := k, data := pre } pre.length its = ({ kind := k, data := pre ++ text }, pre.length + text.length) ∧
     scanItems srcCfg inp pre.length (its.map Item.shape)
-      = (its.filterMap Item.readBack, .ok (inp.adv text.length, pre.length + text.length)) := by
+      = (its.filterMap (Item.readBack srcCfg), .ok (inp.adv text.length, pre.length + text.length)) := by
   intro text inp
   constructor
   · exact printItems_at_end srcCfg its { kind := k, data := pre }
-  · apply scanItems_text srcCfg (tables_of_ok _ C15_tables.1) C15_tables.2 C15_pct_uses_n k its z inp pre.length rfl hc
+  · apply scanItems_text srcCfg (tables_of_ok _ C15_tables.1) C15_tables.2 C15_pct_uses_n (arms_of_ok _ C15_int_arms) k its z inp pre.length rfl hc
     cases k <;> simp [inp, text, Input.view, List.append_assoc]
 
-/-- … and for sequences of Strings and Ints the values stored are exactly the values written -/
+/-- … and for sequences of Strings and Ints inside the property's quantifier (`inProperty`: the contract, and every Int is a value
+    of the type its specification names) the values stored are exactly the values written -/
 theorem C15_sequence_values_exact (k : Kind) (pre : List Nat) (its : List Item) (z : List Nat)
-    (hc : contractOK srcCfg k its z = true) (hnf : ∀ it ∈ its, it.isFloat = false) :
+    (hc : inProperty srcCfg k its z = true) (hnf : ∀ it ∈ its, it.isFloat = false) :
     (scanItems srcCfg { kind := k, text := pre ++ its.flatMap (Item.text srcCfg) ++ z, cur := pre.length } pre.length
       (its.map Item.shape)).1 = its.filterMap Item.val? := by
-  rw [(C15_sequence_roundtrip k pre its z hc).2, filterMap_readBack_eq_val its hnf]
+  simp only [inProperty, Bool.and_eq_true, List.all_eq_true] at hc
+  rw [(C15_sequence_roundtrip k pre its z hc.1).2, filterMap_readBack_eq_val srcCfg its hnf hc.2]
 
 /-- a File's stream after the read is at start + number of characters written; a String has no stream -/
 theorem C15_file_stream_position (pre text z : List Nat) :
@@ -121,30 +178,31 @@ theorem C15_file_stream_position (pre text z : List Nat) :
 
 /-- **A value alone** (`show_to` / `look_from` of one String, Int or Float) at any start position of a String or a File,
     whatever follows it (for a number: anything that does not continue it): the value comes back (`readBack`: for a Float, the
-    double nearest to the text written) and the reader returns the position the writer returned. -/
+    double nearest to the text written, which prints as the same text: `C15_float_value`) and the reader returns the position the
+    writer returned. -/
 theorem C15_single_value (k : Kind) (pre : List Nat) (v : Val) (z : List Nat)
     (hv : (Item.shw v).valid = true) (hs : (Item.shw v).safe k z = true) :
     let text := (Item.shw v).text srcCfg
     let inp : Input := { kind := k, text := pre ++ text ++ z, cur := pre.length }
     printItem srcCfg { kind := k, data := pre } pre.length (.shw v) = ({ kind := k, data := pre ++ text }, pre.length + text.length) ∧
-    scanItem srcCfg inp pre.length (Item.shw v).shape = ((Item.shw v).readBack, .ok (inp.adv text.length, pre.length + text.length)) := by
+    scanItem srcCfg inp pre.length (Item.shw v).shape = ((Item.shw v).readBack srcCfg, .ok (inp.adv text.length, pre.length + text.length)) := by
   intro text inp
   constructor
   · exact printItem_at_end srcCfg { kind := k, data := pre } (.shw v)
-  · apply scanItem_text srcCfg (tables_of_ok _ C15_tables.1) C15_tables.2 C15_pct_uses_n k (.shw v) z inp pre.length rfl hv hs
+  · apply scanItem_text srcCfg (tables_of_ok _ C15_tables.1) C15_tables.2 C15_pct_uses_n (arms_of_ok _ C15_int_arms) k (.shw v) z inp pre.length rfl hv hs
     cases k <;> simp [inp, text, Input.view, List.append_assoc]
 
 /-- facts about the two conversion-character sets, decided on the sets extracted from `scan_from_with` / `print_to_with`: both end
-    a specification at `$`, `i`, `d`, `f` and not at `l` or `%` -/
+    a specification at `$` and at each of `d i o u x X f F e E g G`, and not at a length modifier (`h l j z t q`) or at `%` -/
 theorem C15_conv_sets : convOK srcCfg.scanConv = true ∧ convOK srcCfg.printConv = true := by
   constructor <;> decide
 
 /-- **Format strings (T2).**  The same round trip stated on the *format string*: for every sequence `its` inside the contract whose
-    separators are non-empty, `%`-free and not adjacent, let `fmt` be the format text (`%$`, `%li`, `%ld`, `%lf`, the separators
-    verbatim).  `print_to_with(out, start, fmt, values)` — the scanner of print_to_with cutting `fmt` with its conversion set —
-    writes exactly the items' texts, and `scan_from_with(input, start, fmt, targets)` with targets of the same types — the scanner
-    of scan_from_with cutting `fmt` with *its* conversion set — stores the values written (`readBack`) and returns the position
-    the writer returned. -/
+    separators are non-empty, `%`-free and not adjacent, let `fmt` be the format text (`%$`, the integer and floating specifications,
+    the separators verbatim).  `print_to_with(out, start, fmt, values)` — the scanner of print_to_with cutting `fmt` with its
+    conversion set — writes exactly the items' texts, and `scan_from_with(input, start, fmt, targets)` with targets of the same
+    types — the scanner of scan_from_with cutting `fmt` with *its* conversion set — stores the values `readBack` and returns the
+    position the writer returned. -/
 theorem C15_format_roundtrip (k : Kind) (pre : List Nat) (its : List Item) (z : List Nat)
     (hc : contractOK srcCfg k its z = true) (hf : fmtOK its = true)
     (targets : List Val) (ht : sameKinds (its.filterMap Item.val?) targets = true) :
@@ -154,7 +212,7 @@ theorem C15_format_roundtrip (k : Kind) (pre : List Nat) (its : List Item) (z : 
     printFmt srcCfg { kind := k, data := pre } pre.length fmt (its.filterMap Item.val?)
       = some ({ kind := k, data := pre ++ text }, pre.length + text.length) ∧
     scanFmt srcCfg inp pre.length fmt targets
-      = some (its.filterMap Item.readBack, .ok (inp.adv text.length, pre.length + text.length)) := by
+      = some (its.filterMap (Item.readBack srcCfg), .ok (inp.adv text.length, pre.length + text.length)) := by
   intro fmt text inp
   have hseq := C15_sequence_roundtrip k pre its z hc
   constructor
@@ -169,51 +227,150 @@ theorem C15_format_roundtrip (k : Kind) (pre : List Nat) (its : List Item) (z : 
     rw [h2, ← h1, Option.map_some]
     exact congrArg some hseq.2
 
-/-- **Float, position part (T2).**  For every double and every following text that starts neither with a digit nor with `e`/`E`:
-    scanf's `%lf` applied to what `%f` printed consumes exactly that text, and the value it stores does not depend on what follows. -/
-theorem C15_float_consumed (bits : Nat) (rest : List Nat)
-    (hd : ∀ b r, rest = b :: r → ¬(48 ≤ b ∧ b ≤ 57) ∧ b ≠ 101 ∧ b ≠ 69) :
-    scanDouble (printF bits ++ rest) = .ok (reparse bits, rest) := by
-  apply scanDouble_printF
-  cases rest with
-  | nil => rfl
-  | cons b r =>
-    have := hd b r rfl
-    simp only [fltSafe, headIs, isDigit, Bool.not_eq_true', Bool.or_eq_false_iff, Bool.and_eq_false_iff, decide_eq_false_iff_not,
-      Nat.not_le, beq_eq_false_iff_ne]
-    omega
+/-- **Float, position part (T1).**  For every floating specification `%[l]<cv>`, `cv ∈ {f F e E g G}`, every finite double and
+    every following text that does not continue the number (`fspecSafe`: no digit, no `e`/`E`; after `%g`/`%G` also no `.` and no
+    `x`/`X`): the floating conversion of scanf — into a `double` (`narrow = false`) or into a `float` (`narrow = true`) alike —
+    applied to what printf wrote consumes exactly that text, and the value it stores does not depend on what follows.
+    (`_hfin`: for a non-finite pattern `printFloatSpec` is not what C prints — `inf`, `nan` —; the statement is about finite doubles.) -/
+theorem C15_float_consumed (narrow : Bool) (cv : FConv) (bits : Nat) (_hfin : fFinite bits = true) (rest : List Nat)
+    (hs : fspecSafe cv rest = true) :
+    scanFloating narrow (printFloatSpec cv bits ++ rest) = .ok (reparseSpec narrow cv bits, rest) :=
+  scanFloating_print narrow cv bits rest hs
 
-/-- **Float, value part — NOT proved** (the conversions are libc's; `printF` / `scanDouble` are exact executable models of them that
-    are compared with the implementation on every run, and the driver evaluates this very statement on every Float it sees):
-    the double read back prints as the same six-decimal text, i.e. it is equal to the original within the printed precision. -/
+/-- **Float, value part (T1) — "equal to within the printed precision".**  For every finite double: the double that scanf's `%lf`
+    reads back from the six-decimal text printf's `%f` wrote (the pair `Float_Show` / `Float_Look` uses, and `%lf` / `%lF` in a
+    format) prints as the same six-decimal text.  Both conversions are exact functions of the model (`printF`: the binary value
+    rounded half-even to six decimals; `scanFloating`: the decimal rounded half-even to 53 bits, subnormals and overflow
+    included), so this is arithmetic: the double read back is at least as close to the printed decimal as the double written
+    (`roundRat_ok`), hence rounds to the same six decimals (`fScaled_stable`). -/
+theorem C15_float_value (bits : Nat) (h : fFinite bits = true) : printF (reparse bits) = printF bits :=
+  printF_reparse bits h
+
+/-- … numerically: the double read back has the same sign, is finite, and differs from the double written by at most 10⁻⁶ (both
+    are within half a unit of the sixth decimal of the text) -/
+theorem C15_float_within (bits : Nat) (h : fFinite bits = true) :
+    (fDecode (reparse bits)).1 = (fDecode bits).1 ∧ fFinite (reparse bits) = true ∧
+    |val (fDecode (reparse bits)).2.1 (fDecode (reparse bits)).2.2 - val (fDecode bits).2.1 (fDecode bits).2.2| ≤ 1 / 10 ^ 6 := by
+  obtain ⟨my, ey, hdec, hfin, hnear⟩ := reparse_near bits h
+  rw [hdec]
+  exact ⟨rfl, hfin, near_within _ _ my ey hnear⟩
+
+/-- the former name of the Float value clause (a `def` that was never proved): now a consequence of `C15_float_value` -/
 def C15_float_value_statement : Prop := ∀ bits, fFinite bits = true → printF (reparse bits) = printF bits
+
+theorem C15_float_value_statement_holds : C15_float_value_statement := C15_float_value
+
+/-- **Known finding KF-C15-float-spec-narrow, the part that stands (`_partial`).**  A floating specification without the `l`
+    modifier makes `scan_from_with` store through a `float` (`C15_float_arm`).  For every finite double that is the value of a
+    `float` (`isFloat32`), what `%f` / `%F` wrote is read back — nearest `float` to the text (`strtof`), widened — as a double that
+    prints as the same six-decimal text, has the same sign, is finite and differs from the value written by at most 10⁻⁶. -/
+theorem C15_float_narrow_partial (bits : Nat) (h : fFinite bits = true) (h32 : isFloat32 bits = true) :
+    printF (reparseSpec true .f bits) = printF bits ∧
+    (fDecode (reparseSpec true .f bits)).1 = (fDecode bits).1 ∧ fFinite (reparseSpec true .f bits) = true ∧
+    |val (fDecode (reparseSpec true .f bits)).2.1 (fDecode (reparseSpec true .f bits)).2.2
+        - val (fDecode bits).2.1 (fDecode bits).2.2| ≤ 1 / 10 ^ 6 := by
+  refine ⟨printF_reparse32 bits h h32, ?_⟩
+  obtain ⟨my, ey, hdec, hfin, hnear⟩ := reparse32_near bits h h32
+  rw [hdec]
+  exact ⟨rfl, hfin, near_within _ _ my ey hnear⟩
+
+/-- the full statement for the `float` destination — what the property asks of `%f` without `l` for *every* finite double.
+    It is false: `C15_float_narrow_refuted`. -/
+def C15_float_narrow_statement : Prop := ∀ bits, fFinite bits = true → printF (reparseSpec true .f bits) = printF bits
+
+/-- **Float items of a sequence**: for a Float shown with `%$` or written with `%lf` / `%lF` / `%f` / `%F` inside the property's
+    quantifier (finite; under a specification without `l`: the value of a `float`), the value `scan_from_with` stores
+    (`readBack`, by `C15_sequence_roundtrip`) prints as the six-decimal text that was written. -/
+theorem C15_float_items (it : Item) (b : Nat) (hv : it.valid = true) (hw : it.inWidth srcCfg = true)
+    (hit : it = .shw (.flt b) ∨ ∃ l, it = .fspec l .f b ∨ it = .fspec l .F b) :
+    ∃ v, it.readBack srcCfg = some (.flt v) ∧ printF v = printF b := by
+  have hF : ∀ narrow bits, reparseSpec narrow .F bits = reparseSpec narrow .f bits := by
+    intro narrow bits; simp [reparseSpec, printFloatSpec]
+  rcases hit with rfl | ⟨l, rfl | rfl⟩
+  · refine ⟨_, rfl, ?_⟩
+    rw [C15_float_arm true .f]; exact C15_float_value b hv
+  · refine ⟨_, rfl, ?_⟩
+    cases l with
+    | true => rw [C15_float_arm true .f]; exact C15_float_value b hv
+    | false =>
+      simp only [Item.inWidth, C15_float_arm false .f, Bool.not_false, Bool.not_true, Bool.false_or] at hw
+      rw [C15_float_arm false .f]; exact (C15_float_narrow_partial b hv hw).1
+  · refine ⟨_, rfl, ?_⟩
+    cases l with
+    | true => rw [C15_float_arm true .F, hF]; exact C15_float_value b hv
+    | false =>
+      simp only [Item.inWidth, C15_float_arm false .F, Bool.not_false, Bool.not_true, Bool.false_or] at hw
+      rw [C15_float_arm false .F, hF]; exact (C15_float_narrow_partial b hv hw).1
+
+/-- **Float under `%e` `%E` `%g` `%G`, value part — NOT proved.**  The consumed length and the position are proved for these
+    specifications (`C15_float_consumed`, `C15_sequence_roundtrip`); that the double read back prints as the same text under the same
+    specification is stated here and evaluated by the driver on every such item it sees (`M rt=`), and checked by the harness
+    oracle with libc, but the argument of `C15_float_value` has not been carried out for a scale that depends on the value. -/
+def C15_float_sci_statement : Prop :=
+  ∀ (cv : FConv) (bits : Nat), fFinite bits = true → printFloatSpec cv (reparseSpec false cv bits) = printFloatSpec cv bits
 
 /-! ## non-vacuity -/
 
 /-- a sequence with quotes, a backslash, a newline, a negative number, separators with white space, read from a File, is in the
-    contract; and what the writer produces for it is the expected text -/
+    property's quantifier; and what the writer produces for it is the expected text -/
 example :
     let its : List Item := [.shw (.str [10, 34, 92, 255]), .lit [44, 32], .li (-42), .lit [32], .shw (.int 0), .lit [59], .ld 7]
-    contractOK srcCfg .file its [120] = true ∧ (∀ it ∈ its, it.isFloat = false) ∧
+    inProperty srcCfg .file its [120] = true ∧ (∀ it ∈ its, it.isFloat = false) ∧
     its.flatMap (Item.text srcCfg) = [34, 92, 110, 92, 34, 92, 92, 255, 34, 44, 32, 45, 52, 50, 32, 48, 59, 55] := by
-  simp [contractOK, Item.valid, Item.safe, Item.text, Item.isFloat, intSafe, litSafe, inInt64, headIs, lastIs, isSpace, isDigit,
-    printInt, natDigits_lt10, natDigits_ge10, showString, showByte, srcCfg, CelloGen.Text.showEsc, CelloGen.Text.showOpen,
-    CelloGen.Text.showClose, List.lookup]
+  have e1 : printIntSpec .l .i (-42) = [45, 52, 50] := by
+    rw [printIntSpec_l_signed .i rfl (-42) (by decide)]; simp [printInt, natDigits_lt10, natDigits_ge10]
+  have e2 : printIntSpec .l .d 7 = [55] := by
+    rw [printIntSpec_l_signed .d rfl 7 (by decide)]; simp [printInt, natDigits_lt10]
+  have e3 : printInt 0 = [48] := by simp [printInt, natDigits_lt10]
+  refine ⟨?_, by decide, ?_⟩
+  · simp only [inProperty, contractOK, Item.valid, Item.safe, Item.text, Item.inWidth, List.flatMap_cons, List.flatMap_nil, e1, e2, e3]
+    decide
+  · simp [Item.text, e1, e2, e3, showString, showByte, srcCfg, CelloGen.Text.showEsc, CelloGen.Text.showOpen,
+      CelloGen.Text.showClose, List.lookup]
+
+/-- narrow and unsigned integer specifications with values of their types, a `float` value under `%f` and a double under `%lf`:
+    inside the property's quantifier, with the expected text `-5,ff 65535;1.500000 -100.000000` -/
+example :
+    let its : List Item := [.ispec .hh .d (-5), .lit [44], .ispec .none .x 255, .lit [32], .ispec .h .u 65535, .lit [59],
+      .fspec false .f 0x3FF8000000000000, .lit [32], .lf 0xC059000000000000]
+    inProperty srcCfg .str its [] = true ∧ fmtOK its = true ∧
+    its.flatMap (Item.text srcCfg) = [45, 53, 44, 102, 102, 32, 54, 53, 53, 51, 53, 59, 49, 46, 53, 48, 48, 48, 48, 48, 32,
+      45, 49, 48, 48, 46, 48, 48, 48, 48, 48, 48] ∧
+    its.flatMap Item.fmt = [37, 104, 104, 100, 44, 37, 120, 32, 37, 104, 117, 59, 37, 102, 32, 37, 108, 102] := by
+  have e1 : printIntSpec .hh .d (-5) = [45, 53] := by
+    simp [printIntSpec, sext, zext, IMod.width, printInt, natDigits_lt10]
+  have e2 : printIntSpec .none .x 255 = [102, 102] := by
+    simp [printIntSpec, zext, IMod.width, digitsB_ge, digitsB_lt, digitChar]
+  have e3 : printIntSpec .h .u 65535 = [54, 53, 53, 51, 53] := by
+    simp [printIntSpec, zext, IMod.width, natDigits_lt10, natDigits_ge10]
+  have e4 : printF 0x3FF8000000000000 = [49, 46, 53, 48, 48, 48, 48, 48] := by
+    simp [printF, fDecode, fScaled, roundHalfEven, natDigits_lt10, natDigits_ge10]
+  have e5 : printF 0xC059000000000000 = [45, 49, 48, 48, 46, 48, 48, 48, 48, 48, 48] := by
+    simp [printF, fDecode, fScaled, roundHalfEven, natDigits_lt10, natDigits_ge10]
+  refine ⟨?_, by decide, ?_, by decide⟩
+  · simp only [inProperty, contractOK, Item.valid, Item.safe, Item.text, printFloatSpec, List.flatMap_cons, List.flatMap_nil, e1, e2, e3,
+      e4, e5, List.all_cons, List.all_nil, Item.inWidth, C15_float_arm]
+    decide
+  · simp [Item.text, printFloatSpec, e1, e2, e3, e4, e5]
 
 /-- a sequence with a Float (1.5) and numeric specifications is in the contract, its separators meet `fmtOK`, the targets the
     harness uses have the same types, and the scanner of `scan_from_with` cuts its format `%$ %ld,%lf` as expected -/
 example :
     let its : List Item := [.shw (.flt 0x3FF8000000000000), .lit [32], .ld 7, .lit [44], .lf 0xC059000000000000]
-    contractOK srcCfg .str its [] = true ∧ fmtOK its = true ∧
+    fmtOK its = true ∧
     sameKinds (its.filterMap Item.val?) [.flt 0x401E000000000000, .int 77, .flt 0x401E000000000000] = true ∧
     segment srcCfg.scanConv (its.flatMap Item.fmt)
       = [.spec [37, 36], .lit [32], .spec [37, 108, 100], .lit [44], .spec [37, 108, 102]] := by
-  refine ⟨?_, by decide, by decide, by decide⟩
-  simp [contractOK, Item.valid, Item.safe, Item.text, intSafe, fltSafe, litSafe, inInt64, headIs, isDigit, fFinite,
-    printInt, natDigits_lt10, printF, fDecode, roundHalfEven, natDigits_ge10]
+  refine ⟨by decide, by decide, by decide⟩
 
 /-- the hypotheses of the String theorem are met by a string of quotes, backslashes and control characters -/
 example : ∀ b ∈ [34, 92, 10, 7, 39, 63, 255, 1], b ≠ 0 := by decide
+
+/-- the hypotheses of the Float theorems are met: 1.5 and 16777216 are `float` values, 123456789.123456 and 0.1 are finite doubles
+    that are not -/
+example : fFinite 0x3FF8000000000000 = true ∧ isFloat32 0x3FF8000000000000 = true ∧ isFloat32 0x4170000000000000 = true ∧
+    fFinite 0x419D6F34547E6B40 = true ∧ isFloat32 0x419D6F34547E6B40 = false ∧ isFloat32 0x3FB999999999999A = false := by
+  decide
 
 /-! ## refutations: what the theorems exclude really fails -/
 
@@ -245,15 +402,69 @@ example :
       = ([.int 1, .int 2], .ok ({ kind := .file, text := [49, 37, 50], cur := 3 }, 3)) := by
   constructor <;> decide
 
+/-- **The pre-fix integer branch (before 9114264: every specification read into `long tmp = 0` itself) is refuted.**  With the
+    single old arm the width facts fail; printf writes `-5` for the Int −5 under `%d`, `%hd` and `%hhd`, and `ffffffff` for −1
+    under `%x`; scanf then stored an `int` / `short` / `char` into the low bytes of the zeroed `long` and nothing widened it:
+    −5 came back as 4294967291, 65531 and 251.  (−1 under `%x` comes back as 4294967295 before and after the fix: the
+    specification names `unsigned int`, and that is C's conversion of −1 to it.) -/
+theorem C15_int_width_old_refuted :
+    let old : Cfg := { srcCfg with intArms := oldIntArms, intSigned := [] }
+    armsOK old = false ∧
+    printIntSpec .none .d (-5) = [45, 53] ∧ printIntSpec .h .d (-5) = [45, 53] ∧ printIntSpec .hh .d (-5) = [45, 53] ∧
+    scanIntSpec old .none .d [45, 53] = .ok (4294967291, []) ∧
+    scanIntSpec old .h .d [45, 53] = .ok (65531, []) ∧
+    scanIntSpec old .hh .d [45, 53] = .ok (251, []) ∧
+    scanIntSpec old .l .d [45, 53] = .ok (-5, []) := by
+  refine ⟨by decide, ?_, ?_, ?_, by decide, by decide, by decide, by decide⟩ <;>
+    simp [printIntSpec, sext, zext, IMod.width, printInt, natDigits_lt10]
+
+/-- the same texts with the branch as it is now: −5 under each width -/
+example :
+    scanIntSpec srcCfg .none .d [45, 53] = .ok (-5, []) ∧ scanIntSpec srcCfg .h .d [45, 53] = .ok (-5, []) ∧
+    scanIntSpec srcCfg .hh .d [45, 53] = .ok (-5, []) ∧
+    scanIntSpec srcCfg .none .x [102, 102, 102, 102, 102, 102, 102, 102] = .ok (4294967295, []) ∧
+    convInt .none .x (-1) = 4294967295 := by
+  refine ⟨by decide, by decide, by decide, by decide, by decide⟩
+
+/-- **Known finding KF-C15-float-spec-narrow is a violation in the model (`_refuted`).**  The full statement for a `float`
+    destination is false: the finite double 123456789.123456 (0x419D6F34547E6B40) written with `%f` is `123456789.123456`; read with
+    `%f` (no `l`) scan_from_with stores the nearest `float`, 123456792.0 (0x419D6F3460000000), which prints as another text.
+    And 1.5e300 (0x7E41EB2D66005835) comes back as +infinity. -/
+theorem C15_float_narrow_refuted :
+    ¬ C15_float_narrow_statement ∧
+    reparseSpec true .f 0x419D6F34547E6B40 = 0x419D6F3460000000 ∧
+    reparseSpec true .f 0x7E41EB2D66005835 = 0x7FF0000000000000 ∧ fFinite 0x7FF0000000000000 = false := by
+  have h1 : reparseSpec true .f 0x419D6F34547E6B40 = 0x419D6F3460000000 := by
+    rw [reparseSpec_f_eq true _ (by decide)]; decide +kernel
+  have h2 : reparseSpec true .f 0x7E41EB2D66005835 = 0x7FF0000000000000 := by
+    rw [reparseSpec_f_eq true _ (by decide)]; decide +kernel
+  refine ⟨?_, h1, h2, by decide⟩
+  intro hst
+  have := hst 0x419D6F34547E6B40 (by decide)
+  rw [h1] at this
+  have := congrArg (fun t => digitsVal (t.filter isDigit)) this
+  simp only [printF_digits] at this
+  revert this
+  decide +kernel
+
+/-- the same two doubles through `%lf`: read back exactly (they are doubles) -/
+example : reparse 0x419D6F34547E6B40 = 0x419D6F34547E6B40 ∧ reparse 0x7E41EB2D66005835 = 0x7E41EB2D66005835 := by
+  constructor <;> (unfold reparse; rw [reparseSpec_f_eq false _ (by decide)]; decide +kernel)
+
+/-- … and the `float` value 1.5 through `%f`: read back exactly -/
+example : reparseSpec true .f 0x3FF8000000000000 = 0x3FF8000000000000 := by
+  rw [reparseSpec_f_eq true _ (by decide)]; decide +kernel
+
 /-- … and `1%2` is what the writer produces for that sequence -/
 example : (printItems srcCfg { kind := .str, data := [] } 0 [.li 1, .pct, .li 2]) = ({ kind := .str, data := [49, 37, 50] }, 3) := by
-  simp [printItems, printItem, Item.text, Sink.put, printInt, natDigits_lt10]
+  have e1 : printIntSpec .l .i 1 = [49] := by rw [printIntSpec_l_signed .i rfl 1 (by decide)]; simp [printInt, natDigits_lt10]
+  have e2 : printIntSpec .l .i 2 = [50] := by rw [printIntSpec_l_signed .i rfl 2 (by decide)]; simp [printInt, natDigits_lt10]
+  simp [printItems, printItem, Item.text, Sink.put, e1, e2]
 
 /-- out of contract on purpose: a number directly followed by a digit is read as a longer number -/
-example : scanLong true (printInt 12 ++ printInt 34) = .ok (1234, []) := by
-  simp [printInt, natDigits_lt10, natDigits_ge10]; decide
+example : scanIntSpec srcCfg .l .i [49, 50, 51, 52] = .ok (1234, []) := by decide
 
 /-- out of contract on purpose: `0` followed by `x` is taken for a hexadecimal prefix -/
-example : scanLong true ([48] ++ [120, 44]) = .ok (0, [44]) := by decide
+example : scanIntSpec srcCfg .l .i ([48] ++ [120, 44]) = .ok (0, [44]) := by decide
 
 end Cello.Text
